@@ -42,6 +42,23 @@ def small_graphs(max_n=3):
     return out
 
 
+def random_slices(algo, seed, count, nsym, extra='', nmin=6, nmax=7, wmax=20):
+    """seeded random connected graphs on 6..7 vertices with n+3..n+6 edges, `nsym` symbolic weights, the rest fixed in 1..wmax:
+    each case covers ALL values of its symbolic weights against a concrete background (reaches graph shapes the exhaustive part cannot)"""
+    r = rng(hash((seed, algo, 'rs', nsym)) & 0xffffffff)
+    out = []
+    while len(out) < count:
+        n = r.choice(list(range(nmin, nmax + 1)))
+        m = r.randint(n + 3, n + 6)
+        es = sorted(r.sample(all_pairs(n), m))
+        if components(n, es) != 1:
+            continue
+        symidx = sorted(r.sample(range(m), nsym))
+        fixed = [r.randint(1, wmax) for _ in range(m)]
+        out.append('algo=%s n=%d edges=%s sym=%s fixed=%s fam=random%s' % (algo, n, edges_str(es), ','.join(map(str, symidx)), ','.join(map(str, fixed)), extra))
+    return out
+
+
 def exact_cases(tier, seed, algos=('signed', 'fvs', 'iso')):
     cases = []
     g4 = [(4, g) for g in all_labelled_graphs(4)]
@@ -80,11 +97,13 @@ def exact_cases(tier, seed, algos=('signed', 'fvs', 'iso')):
                     r5.shuffle(perm)
                     cases.append('algo=%s n=5 edges=%s sym=all' % (algo, edges_str(g)))
                     cases.append('algo=%s n=5 edges=%s sym=all perm=%s' % (algo, edges_str(g), ','.join(map(str, perm))))
+        if tier == 'quick':
+            cases += random_slices(algo, seed, 6, 2)
         # a forest and an edgeless graph with several components
         cases.append('algo=%s n=5 edges=0-1,1-2,1-3,3-4 sym=all' % algo)
         cases.append('algo=%s n=5 edges=0-1,2-3 sym=all' % algo)
         if tier == 'thorough':
-            # G5s: one labelling per isomorphism class, m <= 6 fully symbolic (iso: m <= 5), m = 7 4-symbolic
+            # every 5-vertex graph (one labelling + a seeded relabelling/insertion order) with 5 edges fully symbolic, with 6..7 edges as 3-symbolic slices
             for g in iso_classes(5, max_m=7, min_m=5):
                 m = len(g)
                 if dim(5, g) < 1:
@@ -94,18 +113,19 @@ def exact_cases(tier, seed, algos=('signed', 'fvs', 'iso')):
                 r.shuffle(perm)
                 order = list(range(m))
                 r.shuffle(order)
-                lim = 5 if algo == 'iso' else 6
-                if m <= lim:
+                if m <= 5:
                     cases.append('algo=%s n=5 edges=%s sym=all' % (algo, edges_str(g)))
                     cases.append('algo=%s n=5 edges=%s sym=all perm=%s order=%s' % (
                         algo, edges_str(g), ','.join(map(str, perm)), ','.join(map(str, order))))
                 else:
-                    symidx = sorted(r.sample(range(m), 4 if algo != 'iso' else 3))
-                    cases.append('algo=%s n=5 edges=%s sym=%s' % (algo, edges_str(g), ','.join(map(str, symidx))))
+                    symidx = sorted(r.sample(range(m), 3))
+                    fixed = [r.choice([1, 1, 2, 3]) for _ in range(m)]
+                    cases.append('algo=%s n=5 edges=%s sym=%s fixed=%s' % (algo, edges_str(g), ','.join(map(str, symidx)), ','.join(map(str, fixed))))
             for f in ['K33', 'Q3', 'grid3x3', 'K5', 'K6', 'petersen', 'grid3x4', 'wheel5', 'prism', 'theta2_2_3']:
-                cases += slice_cases(algo, f, 3, seed, variants=2)
-            for f in ['K33', 'grid3x3', 'K5', 'petersen']:
-                cases += slice_cases(algo, f, 4, seed, variants=1)
+                cases += slice_cases(algo, f, 3 if algo != 'iso' else 2, seed, variants=2)
+            cases += random_slices(algo, seed, 16 if algo != 'iso' else 8, 2)
+            if algo == 'signed':
+                cases += random_slices(algo, seed, 6, 3)
     return cases
 
 
@@ -179,7 +199,7 @@ def approx_cases(tier, seed, algos=('approx_signed', 'approx_fvs', 'approx_iso')
     cases = []
     g4 = [(4, g) for g in all_labelled_graphs(4)]
     base = [(n, g) for n, g in small_graphs(3)] + g4
-    maxfull = 5 if tier == 'quick' else 6
+    maxfull = 5
     for algo in algos:
         for k in ks:
             for n, g in base:
@@ -192,18 +212,18 @@ def approx_cases(tier, seed, algos=('approx_signed', 'approx_fvs', 'approx_iso')
                     cases.append('algo=%s k=%d n=%d edges=%s sym=all' % (algo, k, n, edges_str(g)))
                 else:
                     r = rng(hash((seed, algo, k, tuple(g))) & 0xffffffff)
-                    symidx = sorted(r.sample(range(m), 3))
+                    symidx = sorted(r.sample(range(m), 3 if tier == 'quick' else 4))
                     cases.append('algo=%s k=%d n=%d edges=%s sym=%s' % (algo, k, n, edges_str(g), ','.join(map(str, symidx))))
             if k == 0:
                 continue
             # girth-5 and chorded-cycle shapes: the k=2 spanner keeps cycles, so the exact phase really runs
             fams = [('C5', 5), ('theta2_2_3', 3), ('petersen', 2), ('K33', 2), ('grid3x3', 2), ('two_triangles_bridge', 3)]
             if tier == 'thorough':
-                fams += [('theta3_3_3', 3), ('Q3', 2), ('K5', 3), ('prism', 3), ('petersen', 3), ('C6', 6), ('wheel5', 3)]
+                fams += [('Q3', 2), ('K5', 3), ('prism', 3), ('C6', 4), ('wheel5', 3)]
             for f, ns in fams:
                 cases += slice_cases(algo, f, ns, seed, variants=1 if tier == 'quick' else 2, extra=' k=%d' % k)
             # C5 plus one chord, C6 plus a long chord
-            cases.append('algo=%s k=%d n=5 edges=0-1,1-2,2-3,3-4,0-4,0-2 sym=%s' % (algo, k, 'all' if tier == 'thorough' else '0,2,5'))
+            cases.append('algo=%s k=%d n=5 edges=0-1,1-2,2-3,3-4,0-4,0-2 sym=%s' % (algo, k, '0,1,2,5' if tier == 'thorough' else '0,2,5'))
             cases.append('algo=%s k=%d n=6 edges=0-1,1-2,2-3,3-4,4-5,0-5,0-3 sym=%s' % (algo, k, '0,3,6' if tier == 'quick' else '0,1,3,6'))
     return cases
 
@@ -277,6 +297,8 @@ def check_approx(prop, tier, seed):
                 continue
             lines.append(replay_line(rec, weights, 'double'))
             meta.append(rec)
+            lines.append(replay_line(rec, [w / 8.0 for w in weights], 'double'))
+            meta.append(rec)
         for rec, o, line in zip(meta, run_replayer_batch(r_mcb, lines), lines):
             k = int(rec['k'])
             c05bad = c01_violated(o) or (not o.get('crashed') and o['ret'] != o['sum'])
@@ -331,7 +353,7 @@ def check_approx(prop, tier, seed):
         'functions_encoded': ['parmcb::approx_mcb_sva_signed', 'parmcb::approx_mcb_sva_fvs_trees', 'parmcb::approx_mcb_sva_iso_trees',
                               'parmcb::detail::BaseApproxSpannerAlgorithm (construct_spanner, run)', 'parmcb::is_bfs_reachable',
                               'parmcb::dijkstra', 'NonSpannerEdgesCycleBuilder', 'std::sort with symbolic comparisons'],
-        'bounds': ('k in {0,1,2,3} (for n<=5, 2k-1 >= n-1 from k=3 on); every labelled simple graph on <=4 vertices with m<=5 (thorough: 6) '
+        'bounds': ('k in {0,1,2,3} (for n<=5, 2k-1 >= n-1 from k=3 on); every labelled simple graph on <=4 vertices with m<=5 '
                    'fully symbolic, heavier ones as 3-symbolic slices; C5, chorded C5/C6, theta graphs, Petersen, K33, 3x3 grid as 2..6-symbolic slices'),
         'outside_bounds': 'k whose 2k-1 overflows size_t; graphs beyond the listed ones; the *_tbb approximate entry points (C03)',
     }
@@ -352,7 +374,7 @@ def C15(tier, seed):
 
 # ----------------------------------------------------------------------------- generic engine-A check runner
 def run_symx_check(prop, tier, seed, harness_src, cases, budget, tv, confirm, bounds, kind='symx', replayer='replay/r_misc.cpp',
-                   witness_pick=None, assumptions=None, level='model_checking', keep_every=5, extra_cov=None, prefixes=None):
+                   witness_pick=None, assumptions=None, level='model_checking', keep_every=5, extra_cov=None, prefixes=None, on_leaf=None):
     """tv(leaves, replayer_bin) -> (nvalid, mismatch|None);  confirm(agg, replayer_bin, out) fills out."""
     t0 = time.time()
     h, rbin = build_many([(harness_src, kind), (replayer, 'real')])
@@ -365,6 +387,8 @@ def run_symx_check(prop, tier, seed, harness_src, cases, budget, tv, confirm, bo
     leaves = []
 
     def keep(rec):
+        if on_leaf:
+            on_leaf(rec)
         if rec.get('obl'):
             return  # leaves with a violated obligation go to the counterexample replay, not to translation validation
         if (rec['path'] % keep_every == 0 or rec['depth'] == 0) and len(leaves) < 60000:
@@ -430,7 +454,7 @@ def generic_confirm(prop, line_of, violated_pred, keyfn, replayer_name):
 
 
 def topo_cases(tier, seed, prefix='', full_max_quick=5, full_max_thorough=6, fams_quick=(), fams_thorough=(), g5=True, g5_max=6,
-               extra=''):
+               extra='', g5_full=5):
     cases = []
     for n, g in small_graphs(3) + [(4, g) for g in all_labelled_graphs(4)]:
         m = len(g)
@@ -461,8 +485,13 @@ def topo_cases(tier, seed, prefix='', full_max_quick=5, full_max_thorough=6, fam
             r = rng(hash((seed, prefix, tuple(g), 'o')) & 0xffffffff)
             order = list(range(len(g)))
             r.shuffle(order)
-            cases.append('%sn=5 edges=%s sym=all%s' % (prefix, edges_str(g), extra))
-            cases.append('%sn=5 edges=%s sym=all order=%s%s' % (prefix, edges_str(g), ','.join(map(str, order)), extra))
+            if len(g) <= g5_full:
+                cases.append('%sn=5 edges=%s sym=all%s' % (prefix, edges_str(g), extra))
+                cases.append('%sn=5 edges=%s sym=all order=%s%s' % (prefix, edges_str(g), ','.join(map(str, order)), extra))
+            else:
+                symidx = ','.join(map(str, sorted(r.sample(range(len(g)), 3))))
+                cases.append('%sn=5 edges=%s sym=%s%s' % (prefix, edges_str(g), symidx, extra))
+                cases.append('%sn=5 edges=%s sym=%s order=%s%s' % (prefix, edges_str(g), symidx, ','.join(map(str, order)), extra))
     return cases
 
 
@@ -503,7 +532,7 @@ def C12(tier, seed):
         'functions_encoded': ['parmcb::lex_dijkstra', 'LexDistanceCompare/Combine', 'parmcb::SPTree (initialize, compute_first_in_path)'],
         'bounds': 'trees rooted at EVERY vertex in one path; quick: all labelled graphs on <=4 vertices with m<=5 fully symbolic, K4 3-symbolic, '
                   'all-ties (unit weight) K33, Q3, 3x3 grid plus 1..2-symbolic tie-breaking slices; thorough: K4 fully symbolic, every 5-vertex '
-                  'graph (one labelling + seeded insertion order) with 4<=m<=6 fully symbolic, 3x4 grid, Petersen, K6 slices',
+                  'graph (one labelling + seeded insertion order) with 4<=m<=5 fully symbolic and m=6 as 3-symbolic slices, 3x4 grid, Petersen, K6 slices',
         'outside_bounds': 'graphs beyond those listed; floating-point rounding (C09)',
     }
     return run_symx_check('C12', tier, seed, 'harness/h_sptree.cpp', cases, 900 if tier == 'quick' else 3300, tv, confirm, bounds,
@@ -791,8 +820,7 @@ def C17(tier, seed):
     if tier == 'quick':
         cases = ['L=2 steps=1 R=2', 'L=1 steps=2 R=2', 'L=3 steps=1 R=2 op=4', 'L=3 steps=1 R=2 op=6']
     else:
-        cases = ['L=3 steps=1 R=2 op=%d' % o for o in range(13)] + ['L=2 steps=2 R=2', 'L=1 steps=3 R=3', 'L=2 steps=1 R=3',
-                                                                   'L=4 steps=1 R=2 op=4', 'L=4 steps=1 R=2 op=6', 'L=4 steps=1 R=2 op=5']
+        cases = ['L=3 steps=1 R=2 op=%d' % o for o in range(13)] + ['L=2 steps=2 R=2', 'L=1 steps=3 R=2', 'L=2 steps=1 R=3']
 
     def tv(leaves, rbin):
         lines, meta = [], []
@@ -1133,11 +1161,20 @@ def check_topo(prop, what, tier, seed):
                 out.n_confirmed += 1
                 out.violation_lines.append('VIOLATION property=%s replay=%s' % (prop, rp))
 
+    seen_inputs = set()
+    counts = {'nontrivial': 0}
+
+    def on_leaf(rec):
+        key = (rec.get('n'), rec.get('edges'), rec.get('order'))
+        if key not in seen_inputs:
+            seen_inputs.add(key)
+            if rec.get('edges') not in ('-', '', None):
+                counts['nontrivial'] += 1
+
     def extra(agg):
-        distinct = len(set())
-        return {'evaluations': agg.leaves, 'distinct_nontrivial': agg.leaves,
+        return {'evaluations': agg.leaves, 'distinct_nontrivial': counts['nontrivial'], 'distinct_inputs': len(seen_inputs),
                 'rule': 'one leaf per (labelled simple graph on n vertices, edge insertion order variant); adjacency bits are boolean variables of the '
-                        'path condition decided through the engine, so distinct leaves are distinct inputs; every graph with at least one vertex counts as non-trivial',
+                        'path condition decided through the engine; distinct = distinct (n, edge set, insertion order) as counted by the driver; non-trivial = the graph has at least one edge',
                 'exhaustive': True}
     bounds = {
         'functions_encoded': ['parmcb::greedy_fvs'] if what == 'fvs' else ['parmcb::ForestIndex', 'parmcb::detail::spanning_forest'],
@@ -1149,7 +1186,7 @@ def check_topo(prop, what, tier, seed):
     assume = ['real adjacency_list<vecS,vecS,undirectedS>; checks by an independent union-find (symx/oracle.hpp)']
     return run_symx_check(prop, tier, seed, 'harness/h_topo.cpp', cases, 600 if tier == 'quick' else 3000, tv, confirm, bounds,
                           witness_pick=lambda cs: [c for c in cs if 'n=3' in c], assumptions=assume, level='exploration', keep_every=3,
-                          extra_cov=extra)
+                          extra_cov=extra, on_leaf=on_leaf)
 
 
 def C13(tier, seed):
@@ -1261,6 +1298,11 @@ def tbb_cases(tier, seed):
     for f, ns in fams:
         for algo in exact + (['approx_signed_tbb'] if tier == 'thorough' else []):
             cases += slice_cases(algo, f, ns, seed, variants=1, extra=' lmax=%d cb=%d%s' % (3, 1 if tier == 'quick' else 2, ' k=2' if algo.startswith('approx') else ''))
+    if tier == 'thorough':
+        for algo in exact:
+            cases += random_slices(algo, seed, 16 if 'iso' not in algo else 6, 2, extra=' lmax=3 cb=1')
+    else:
+        cases += random_slices('signed_tbb', seed, 6, 2, extra=' lmax=3 cb=0')
     cb = 2 if tier == 'quick' else 3
     return [c if ' cb=' in c else c + ' cb=%d seed=%d' % (cb, seed) for c in cases]
 
@@ -1288,7 +1330,7 @@ def C03(tier, seed):
             sched_stats['max_alts'] = max(sched_stats['max_alts'], int(rec['max_alts']))
         if 'ret' in rec and (rec['path'] % 5 == 0 or rec['depth'] == 0) and len(leaves) < 60000:
             leaves.append(rec)
-    s, log = run_harness(h, cases, prop + '-' + tier, timeout=1200 if tier == 'quick' else 3400, max_paths=4000000)
+    s, log = run_harness(h, cases, prop + '-' + tier, timeout=1200 if tier == 'quick' else 3400)
     agg.add_summary(s)
     agg.witness_hits = ws.get('witness_hits', 0)
     agg.add_log(log, keep)
@@ -1306,6 +1348,9 @@ def C03(tier, seed):
                 continue
             lines.append(replay_line(rec, weights, 'double'))
             meta.append((rec, den))
+            # and with non-integral (dyadic, exactly representable) weights
+            lines.append(replay_line(rec, [w / 8.0 for w in weights], 'double'))
+            meta.append((rec, fractions.Fraction(den, 8)))
         for (rec, den), o, line in zip(meta, run_replayer_batch(r_mcb, lines), lines):
             bad = o.get('crashed') or c01_violated(o) or o['ret'] != o['sum']
             if not bad:
@@ -1437,7 +1482,7 @@ def C04(tier, seed):
             stats['collectives'] += int(rec.get('collectives', 0))
         if 'ret' in rec and (rec['path'] % 5 == 0 or rec['depth'] == 0) and len(leaves) < 60000:
             leaves.append(rec)
-    s, log = run_harness(h, cases, prop + '-' + tier, timeout=1200 if tier == 'quick' else 3400, max_paths=4000000)
+    s, log = run_harness(h, cases, prop + '-' + tier, timeout=1200 if tier == 'quick' else 3400)
     agg.add_summary(s)
     agg.witness_hits = ws.get('witness_hits', 0)
     agg.add_log(log, keep)
@@ -1827,7 +1872,7 @@ def C09(tier, seed):
             return  # leaves with a violated obligation go to the counterexample replay, not to translation validation
         if 'cycles' in rec and len(leaves) < 40000 and rec['path'] % 3 == 0:
             leaves.append(rec)
-    s, log = run_harness(h, cases, prop + '-' + tier, timeout=1200 if tier == 'quick' else 3400, max_paths=3000000)
+    s, log = run_harness(h, cases, prop + '-' + tier, timeout=1200 if tier == 'quick' else 3400)
     agg.add_summary(s)
     agg.witness_hits = ws.get('witness_hits', 0)
     agg.add_log(log, keep)
